@@ -30,6 +30,9 @@ func main() {
 		fmt.Sscan(os.Args[4], &lim)
 		os.Exit(storeChild(os.Args[2], os.Args[3], lim, os.Args[5]))
 	}
+	if os.Args[1] == "hash-child" && len(os.Args) == 3 {
+		os.Exit(hashChild(os.Args[2]))
+	}
 	a := Args{engine: os.Args[1]}
 	fs := flag.NewFlagSet("kvh", flag.ExitOnError)
 	fs.Uint64Var(&a.seed, "seed", 1, "PRNG seed")
@@ -63,6 +66,8 @@ func main() {
 		res = runExplore(a)
 	case "replicas":
 		res = runReplicasEngine(a)
+	case "labels":
+		res = runLabelsHash(a)
 	default:
 		fmt.Fprintln(os.Stderr, "unknown engine", a.engine)
 		os.Exit(2)
